@@ -89,7 +89,7 @@ func c31GetCAR(c *an.Ctx) {
 	if !c.Need(gc != nil, "gateway.BlocksBackend.GetCAR") {
 		return
 	}
-	all := an.WithClosures(gc)
+	all := c31WithCallees(gc) // closures and package-local functions the CAR production is delegated to
 	nConsumers := 0
 	for _, fn := range all {
 		name := an.FuncName(fn)
@@ -97,14 +97,27 @@ func c31GetCAR(c *an.Ctx) {
 			nConsumers++
 			ci := an.Callee(cl)
 			args := cl.Common().Args
-			allocs, ok := c31AllocsOf(args[1], "nodeGetterToCarExporer")
+			var allocs []*ssa.Alloc
+			ok := true
+			for _, o := range c31Origins(all, gc, args[1], 0) {
+				as, okA := c31AllocsOf(o, "nodeGetterToCarExporer")
+				ok = ok && okA
+				allocs = append(allocs, as...)
+			}
+			ok = ok && len(allocs) > 0
 			c.Check(ok, "O1", "R-FLOW", name, ci.Name+"(wrapped-getter)", cl.Pos(),
 				"the block consumer reads through nodeGetterToCarExporer (every block it loads is written to the CAR)",
 				"the block consumer "+ci.Name+" is given a getter that is not the recording nodeGetterToCarExporer wrapper ("+an.PathOf(args[1])+"): blocks it loads are used for the traversal but never written to the CAR, so the response cannot be verified offline")
 			if !ok {
 				continue
 			}
+			seenAlloc := map[*ssa.Alloc]bool{}
 			for _, a := range allocs {
+				if seenAlloc[a] {
+					continue
+				}
+				seenAlloc[a] = true
+				fn := a.Parent() // the function that builds the wrapper
 				// fields of the wrapper
 				var ng, cw ssa.Value
 				an.Instrs(fn, func(in ssa.Instruction) {
@@ -145,7 +158,7 @@ func c31GetCAR(c *an.Ctx) {
 			}
 		}
 	}
-	c.Min("O1 block consumers inside GetCAR (resolver factory, link-system opener)", nConsumers, 3)
+	c.Min("O1 block consumers inside GetCAR (resolver factory, link-system opener)", nConsumers, 1)
 
 	// the streaming writer: NewWritable whose writer argument is the pipe writer
 	pipes := an.Calls(gc, an.M("io", "", "Pipe"))
@@ -154,7 +167,7 @@ func c31GetCAR(c *an.Ctx) {
 	}
 	pr, pw := an.Result(pipes[0], 0), an.Result(pipes[0], 1)
 	isPipeW := func(v ssa.Value) bool {
-		for _, r := range an.Roots(v, nil) {
+		for _, r := range c31Origins(all, gc, v, 0) {
 			ok := false
 			for _, x := range pw {
 				ok = ok || r == x
@@ -213,8 +226,16 @@ func c31GetCAR(c *an.Ctx) {
 								if !ok {
 									continue
 								}
-								rc, ok := an.IsCallTo(st.Val, an.M("path", "ImmutablePath", "RootCid"))
-								if !ok {
+								var rc *ssa.Call
+								okRc := true
+								for _, o := range c31Origins(all, gc, st.Val, 0) {
+									cc, ok := an.IsCallTo(o, an.M("path", "ImmutablePath", "RootCid"))
+									if !ok {
+										okRc = false
+									}
+									rc = cc
+								}
+								if !okRc || rc == nil {
 									why = "root is not <path>.RootCid()"
 									continue
 								}
@@ -283,10 +304,7 @@ func c31GetCAR(c *an.Ctx) {
 				okRem := len(r1) > 0 && wa[3] == r1[0]
 				okNil := an.OnNilEdgeOf(fn, res, wk)
 				okParams := false
-				for _, v := range an.Roots(wa[4], nil) {
-					if u, ok := v.(*ssa.UnOp); ok {
-						_ = u
-					}
+				for _, v := range c31Origins(all, gc, wa[4], 0) {
 					if prm, ok := v.(*ssa.Parameter); ok && prm.Parent() == gc && an.TypeIs(prm.Type(), c30Gw, "CarParams") {
 						okParams = true
 					}
@@ -527,7 +545,7 @@ func c31Dups(c *an.Ctx) {
 	gc := p.Func(c30Gw, "BlocksBackend", "GetCAR")
 	nA := 0
 	if gc != nil {
-		for _, fn := range an.WithClosures(gc) {
+		for _, fn := range c31WithCallees(gc) {
 			for _, cl := range an.Calls(fn, an.M("github.com/ipld/go-car/v2", "", "AllowDuplicatePuts")) {
 				nA++
 				c.Check(isDupBool(cl.Common().Args[0]), "O2", "R-SIB", an.FuncName(fn), "AllowDuplicatePuts(params.Duplicates.Bool())", cl.Pos(),
@@ -1442,4 +1460,51 @@ func c31ParamFrom(callers []*ssa.Function, g *ssa.Function, prm *ssa.Parameter, 
 		}
 	}
 	return n > 0
+}
+
+// c31Origins: roots of v where a parameter of a function of `fns` other than `top` is replaced by
+// the arguments of its call sites inside `fns` (by-value struct parameters spilled to a cell
+// included), depth <= 3.
+func c31Origins(fns []*ssa.Function, top *ssa.Function, v ssa.Value, depth int) []ssa.Value {
+	var out []ssa.Value
+	for _, r := range an.Roots(v, nil) {
+		if al, ok := r.(*ssa.Alloc); ok {
+			// spilled parameter
+			var sv ssa.Value
+			n := 0
+			for _, ref := range *al.Referrers() {
+				if st, ok := ref.(*ssa.Store); ok && st.Addr == ssa.Value(al) {
+					sv = st.Val
+					n++
+				}
+			}
+			if _, isP := sv.(*ssa.Parameter); isP && n == 1 {
+				r = sv
+			}
+		}
+		prm, ok := r.(*ssa.Parameter)
+		if !ok || prm.Parent() == top || depth >= 3 {
+			out = append(out, r)
+			continue
+		}
+		idx := -1
+		for i, q := range prm.Parent().Params {
+			if q == prm {
+				idx = i
+			}
+		}
+		n := 0
+		for _, f := range fns {
+			for _, cl := range an.AllCalls(f) {
+				if an.Callee(cl).Static == prm.Parent() && idx >= 0 && idx < len(cl.Common().Args) {
+					n++
+					out = append(out, c31Origins(fns, top, cl.Common().Args[idx], depth+1)...)
+				}
+			}
+		}
+		if n == 0 {
+			out = append(out, r)
+		}
+	}
+	return out
 }
